@@ -85,6 +85,36 @@ def files(ctx: Ctx):
         if d.get('bg') and bg.lift_design(d) is not None:
             designs.append(d)
             nb += 1
+    # a deliberate class (own generator state): a background substitution on the base before a targeton and a custom insertion / deletion on the
+    # targeton's first base - the anchor of its PAM VCF record is that base as the background carries it, not the one the user's VCF gives
+    import random
+    r2 = random.Random(f'C09-anchor-before-targeton-{ctx.seed}')
+    ne = 0
+    for _ in range(40 * n):
+        if ne >= max(4, n // 12):
+            break
+        d = gen.gen_sge(r2, dict(focus, p_custom=1.0, p_pam=0.5))
+        if not d.get('vcfs'):
+            continue
+        U = d['ref'].upper()
+        t = r2.choice(d['targetons'])
+        s_ = t['ref_start']
+        used = {x for f in d['vcfs'] for r in f['records'] for x in range(r['pos'] - 1, r['pos'] + len(r['ref']) + 1)}
+        if s_ < 4 or (set(range(s_ - 2, s_ + 4)) & used) or any(x is not t and x['ref_start'] <= s_ + 3 and s_ - 2 <= x['ref_end'] for x in d['targetons']):
+            continue
+        anchor = U[s_ - 2]
+        rec = ({'pos': s_ - 1, 'ref': anchor, 'alts': [anchor + gen.rand_dna(r2, r2.randint(1, 3))], 'kind': 'ins'} if r2.random() < 0.5 else
+               {'pos': s_ - 1, 'ref': U[s_ - 2:s_ - 1 + r2.randint(1, 2)], 'alts': [anchor], 'kind': 'del'})
+        rec['id'] = f'first{s_}'
+        if d['vcfs'][0].get('id_tag'):
+            rec['info'] = {d['vcfs'][0]['id_tag']: f'first{s_}'}
+        d['vcfs'][0]['records'].append(rec)
+        d['vcfs'][0]['records'].sort(key=lambda r: (r.get('contig', d['contig']) != d['contig'], r['pos']))
+        d['bg'] = [{'pos': s_ - 1, 'ref': anchor, 'alts': [r2.choice([c for c in 'ACGT' if c != anchor])], 'id': 'bgbefore'}]
+        d.pop('mask', None)
+        if bg.lift_design(d) is not None:
+            designs.append(d)
+            ne += 1
     results = rowcheck.run_designs(designs)
     rowcheck.model_rows(ctx, results, 'VCF records', fields=['vcf_ref', 'vcf_pam', 'included'])
     check_results(ctx, results)
